@@ -336,14 +336,20 @@ def inplace_rules(col, rule="C04.R4"):
                 facts.append(f"returns {S.show(a)}")
     # ... looked up only when the reference identifies a task, and only a task that carries an expression
     member = ("cmp", "in", S.SELF, tasks)
+    # ... or the lookup sits in a try whose handler takes the KeyError of a reference that identifies no task
+    eafp = any(isinstance(t_, ast.Try) and any(isinstance(x_, ast.Subscript) and isinstance(x_.value, ast.Attribute) and x_.value.attr == "tasks"
+                                               for b_ in t_.body for x_ in ast.walk(b_))
+               and any((A.dotted(h_.type) or "") in ("KeyError", "LookupError") for h_ in t_.handlers if h_.type is not None)
+               for t_ in ast.walk(sx.cx.fn))
     for r in sx.of_kind("return"):
         for a in S.alts(r.value):
             if a[:1] == ("attr",) and a[2] == "expr":
                 cs = sx.conds(r.nid)
-                guarded = any(c == member for c in cs) or a[1][:1] == ("call",) or \
+                guarded = eafp or any(c == member for c in cs) or a[1][:1] == ("call",) or \
                     any(c[:1] == ("cmp",) and c[1] == "is not" and c[3] == ("const", "None") and a[1] in S.alts(c[2]) for c in cs)
                 has_expr = any(S.is_call_of(c, ("glob", "hasattr")) and len(c[2]) == 2 and c[2][1] == ("const", repr("expr")) for c in cs) \
-                    or any(S.is_call_of(c, ("glob", "isinstance")) for c in cs)
+                    or any(S.is_call_of(c, ("glob", "isinstance")) for c in cs) \
+                    or ("const", "None") in S.alts(r.value)        # getattr(task, "expr", None)
                 if not (guarded and has_expr):
                     ok = False
                     facts.append(f"`.expr` returned under {[S.show(c) for c in cs]}")
